@@ -7,7 +7,7 @@ use vstd::prelude::*;
 use vstd::std_specs::iter::IteratorSpec;
 verus! {
 
-pub struct Repository { pub _opaque: () }
+#[verifier::external_body] pub struct Repository { _o: () }
 pub enum GitAiError { Generic(String) }
 #[verifier::external_body]
 pub struct SeenSet { _o: () }         // HashSet<&str>
